@@ -178,12 +178,61 @@ def tasks(tier, seed):
     for hi in range(0, 256, 16):
         ts.append({"part": "bytes2", "lo": hi, "hi": hi + 16, "seed": seed, "name": "bytes2/%d" % hi})
     ts.append({"part": "unicode", "seed": seed, "name": "unicode"})
+    ts.append({"part": "resend", "seed": seed, "name": "resend"})
     ts.append({"part": "beyond", "seed": seed, "name": "beyond"})
     return ts
 
 
 BOUNDARY = [0, 1, 2, 3, 4, 5, 6, 7, 8, 123, 124, 125, 126, 127, 128, 129, 130, 131, 255, 256, 65532, 65533, 65534, 65535, 65536, 65537,
             65538, 65539, 65540, 70000]
+
+
+def resend_case(op, fin, n, keysrc, times, switch):
+    """The SAME ABNF object handed to send_frame() several times (a prebuilt heartbeat / fragment): every write is a frame of its own, with a
+    key drawn for that write from the source configured at that moment (switch: another source is installed between the writes)."""
+    lib.reset_globals()
+    shim = env.install_urandom("real")
+    try:
+        sock = env.ScriptSock(b"")
+        ws = env.make_ws(sock)
+        ks = None
+        if keysrc != "default":
+            ks = KeySrc(keysrc)
+            ws.set_mask_key(ks)
+        payload = bytes((i * 13 + 5) % 256 for i in range(n))
+        fr = lib.websocket.ABNF.create_frame(payload, op, fin)
+        keys_expected = []
+        sig0 = {"entry": "send_frame-again", "op": op, "keysrc": keysrc}
+        for t in range(times):
+            if switch and t == 1:
+                ks = KeySrc("bytes" if keysrc != "bytes" else "str")
+                ws.set_mask_key(ks)
+            d0, c0 = len(shim.draws), (len(ks.returned) if ks else 0)
+            before = len(sock.written)
+            ret = ws.send_frame(fr)
+            wire = bytes(sock.written[before:])
+            frames, rest = R.decode_all(wire)
+            if len(frames) != 1 or rest or R.check_client_frame(frames[0]):
+                return (dict(sig0, kind="not-one-frame"), "write %d of the same frame object: %d frames + %d stray bytes" % (t + 1, len(frames), len(rest)))
+            f = frames[0]
+            if (f.fin, f.opcode, f.payload) != (fin, op, payload):
+                return (dict(sig0, kind="payload"), "write %d of the same frame object decodes to fin=%d opcode=%d %.30r" % (t + 1, f.fin, f.opcode, f.payload))
+            if ks is None:
+                new = shim.draws[d0:]
+                if len(new) != 1 or new[0] != f.key:
+                    return (dict(sig0, kind="key-source"), "write %d of the same frame object: key on the wire %s, OS randomness draws during this write: %r" % (
+                        t + 1, f.key.hex(), [x.hex() for x in new]))
+            else:
+                new = [v.encode("utf-8") if isinstance(v, str) else v for v in ks.returned[c0:]]
+                if new != [f.key] or len(shim.draws) != d0:
+                    return (dict(sig0, kind="key-source"), "write %d of the same frame object: key on the wire %s, the configured source returned %r during this write" % (
+                        t + 1, f.key.hex(), [x.hex() for x in new]))
+            if ret != len(wire):
+                return (dict(sig0, kind="return"), "write %d returned %r, %d bytes written" % (t + 1, ret, len(wire)))
+        return None
+    finally:
+        env.uninstall_urandom()
+        lib.set_trace(False)
 
 
 def run_task(desc):
@@ -252,6 +301,26 @@ def run_task(desc):
             for b in range(256):
                 run({"entry": "send", "op": R.BINARY, "fin": 1, "ptype": "bytes", "keysrc": "bytes" if b % 2 else "default", "trace": False,
                      "payload": bytes([a, b]), "ck": "b2:%d:%d" % (a, b)})
+    elif part == "resend":
+        for op in (R.TEXT, R.BINARY, R.CONT, R.PING, R.PONG):
+            for fin in ((0, 1) if op not in R.CONTROL else (1,)):
+                for n in (0, 1, 5, 125, 126, 70000):
+                    if op in R.CONTROL and n > 125:
+                        continue
+                    for keysrc in ("default", "bytes", "str"):
+                        for times, switch in ((2, False), (3, False), (2, True)):
+                            try:
+                                fail = resend_case(op, fin, n, keysrc, times, switch)
+                            except Exception as e:
+                                v = as_violation(e)
+                                if v is None:
+                                    raise
+                                fail = (dict(v.sig, entry="send_frame-again", op=op), v.what)
+                            res["execs"] += 1
+                            seen.add(("resend", op, fin, n, keysrc, times, switch))
+                            if fail is not None:
+                                runner.add_failure(res, fail[0], fail[1], {"resend": [op, fin, n, keysrc, times, switch]})
+        res["samples"].append({"resend": "the same ABNF object written 2-3 times, key source switched in between"})
     elif part == "unicode":
         for i, u in enumerate(UNICODE):
             for entry, op in (("send_default", R.TEXT), ("send_text", R.TEXT), ("send_frame", R.TEXT), ("ping", R.PING), ("pong", R.PONG)):
@@ -273,6 +342,9 @@ def run_task(desc):
 
 
 def replay(rep):
+    if rep.get("resend"):
+        fail = resend_case(*rep["resend"])
+        return None if fail is None else {"sig": fail[0], "what": fail[1]}
     c = dict(rep)
     if c.get("payload") is None:
         n, ck = c["n"], c["ck"]
